@@ -213,13 +213,31 @@ class intros_macro(Macro):
                 pt = pt.forall_intr(intro.prop.arg)
             elif len(args) > 0 and intro.th.prop == args[0]:  # exists case
                 assert intro.prop.is_exists(), "intros_macro"
-                pt = apply_theorem('exE', intro, pt)
+                pt = self.exists_elim(intro, pt)
                 args = args[1:]
             else:  # assume case
                 assert len(intro.th.hyps) == 1 and intro.th.hyps[0] == intro.th.prop, \
                     "intros_macro"
                 pt = pt.implies_intr(intro.prop)
         return pt
+
+    def exists_elim(self, ex_pt, all_pt):
+        """Given ex_pt: ?x1 ... xk. B and all_pt: !x1 ... xk. B --> C with
+        k >= 1 (several variables are introduced by one exists fact), derive C.
+
+        """
+        if not (ex_pt.prop.arg.body.is_exists() and all_pt.prop.is_forall() and
+                all_pt.prop.arg.body.is_forall()):
+            return apply_theorem('exE', ex_pt, all_pt)
+
+        # Eliminate the first variable: for a fresh v, show (?x2 ... xk. B[v]) --> C
+        var_names = [v.name for v in term.get_vars(
+            [ex_pt.prop, all_pt.prop] + list(ex_pt.hyps) + list(all_pt.hyps))]
+        nm = name.get_variant_name(ex_pt.prop.arg.var_name, var_names)
+        v = Var(nm, ex_pt.prop.arg.var_T)
+        inner_ex = ex_pt.prop.arg.subst_bound(v)
+        pt = self.exists_elim(ProofTerm.assume(inner_ex), all_pt.forall_elim(v))
+        return apply_theorem('exE', ex_pt, pt.implies_intr(inner_ex).forall_intr(v))
 
 class apply_theorem_macro(Macro):
     """Apply existing theorem in the theory to a list of current
